@@ -394,20 +394,7 @@ def run(rep, tier):
     rep.floor("R18.5", len(gens), 2, "BeadList::Generate* functions")
     for f in gens:
         rep.analysed(f)
-        calls = [n for n in f.walk() if n.get("k") == "call" and n.get("callee") == T + "wildcmp"]
-        table = {}
-        for c in calls:
-            a = [nows(show(x)) for x in c["args"]]
-            conds = [nows(show(x["cond"])) + ("" if any(y.get("id") == c["id"] for y in walk(x["then"])) else "[else]") for x in f.ancestors(c) if x.get("k") == "if" and "selectByName" in show(x["cond"])]
-            by_name = conds and (conds[0] == "selectByName" or conds[0] == "!selectByName[else]")
-            table["name" if by_name else "type"] = a
-        ok = table.get("name") == ["pSelect", "bead.getName()"] and table.get("type") == ["pSelect", "bead.getType()"]
-        pre = [n for n in f.walk() if n.get("k") in ("opcall", "binop") and n.get("op") == "==" and '"name:"' in show(n)]
-        okp = bool(pre) and "select.substr(0, 5)" in show(pre[0])
-        sub = [n for n in f.walk() if n.get("k") == "opcall" and n.get("op") == "=" and show(n["args"][0]) == "pSelect"]
-        oks = any(re.search(r"select\.substr\(5(,npos)?\)$", nows(show(x["args"][1]))) for x in sub) and any(nows(show(x["args"][1])) == "select" for x in sub)
-        rep.check(ok and okp and oks, "R18.5", "selection|" + f.qname.split("::")[-1], "name: -> wildcmp(pattern, getName()); else wildcmp(pattern, getType())",
-                  "%s: selection table is %s (prefix test ok: %s, pattern extraction ok: %s)" % (f.qname, table, okp, oks), f.loc(), sample=True)
+        check_selection(rep, f)
     check_wildcmp(rep, F)
     check_wildcmp_overload(rep, F)
     rep.assumptions += ["tools::wildcmp's back-tracking matcher is not decided statically (needs exhaustive comparison with a reference matcher)",
@@ -535,3 +522,76 @@ def _walk_atoms(c):
         elif isinstance(x, sp.Basic):
             out += list(sp.preorder_traversal(x))
     return out
+
+
+def check_selection(rep, f):
+    """BeadList::Generate*: by cases of 'the selection starts with name:' the bead is appended exactly when wildcmp(pattern, bead name / bead type) matches,
+    the pattern being the selection without the prefix / the whole selection"""
+    fo = Fold(f, record_calls=r"::push_back$").run()
+    conds = getattr(fo, "conds", {})
+    sel = f.j["params"][1]["name"]
+    pushes = [e for e in fo.events if e["kind"] == "call" and str(e["obj"]) == "beads_"]
+    ws = []
+    for e in pushes:
+        for g in list(e["guards"]) + [x for nl in e.get("not", []) for x in nl]:
+            for a_ in _walk_atoms(g[0]):
+                if str(getattr(a_, "func", "")) == "wildcmp" and len(a_.args) == 2 and a_ not in ws:
+                    ws.append(a_)
+    key = "selection|" + f.qname.split("::")[-1]
+    if not pushes or not ws:
+        rep.check(False, "R18.5", key, "selection by wildcmp", "%s: no append of a bead guarded by wildcmp found" % f.qname, f.loc(), sample=True)
+        return
+    bad = None
+    for byname in (True, False):
+        decisive = []
+        for k, w in enumerate(ws + [None]):
+            def orc(lf, w=w):
+                if isinstance(lf, tuple) and len(lf) == 3 and lf[0] in ("==", "!=", ">", "<", ">=", "<="):
+                    t_ = str(lf[1]) + " " + str(lf[2])
+                    if lf[0] in ("==", "!=") and str(getattr(lf[1], "func", "")) == "wildcmp" and lf[2] == 0:
+                        return ("W%d" % ws.index(lf[1]), lf[0] == "!=")
+                    if lf[0] in ("==", "!=") and '"name:"' in t_ and sel in t_ and str(getattr(lf[1], "func", "")) in ("substr", "compare") and "wildcmp" not in t_:
+                        return ("BYNAME", lf[0] == "==")
+                    if "radius" in t_ and "BCShortestConnection" in t_:
+                        far_when_true = (lf[0] in (">", ">=") and "radius" in str(lf[2])) or (lf[0] in ("<", "<=") and "radius" in str(lf[1]))
+                        return ("FAR", far_when_true)
+                if str(getattr(lf, "func", "")) == "wildcmp" and lf in ws:
+                    return ("W%d" % ws.index(lf), True)
+                return None
+            A = {"BYNAME": byname, "FAR": False}
+            A.update({"W%d" % j: (w is not None and j == ws.index(w)) for j in range(len(ws))})
+            live = []
+            for e in pushes:
+                x = executes(e, None, A, orc, conds)
+                if x is None:
+                    bad = "cannot decide whether a bead is appended (selection %s name:)" % ("with" if byname else "without")
+                    break
+                if x:
+                    live.append(e)
+            if bad:
+                break
+            if w is None and live:
+                bad = "a bead is appended although no wildcmp test matched (selection %s name:)" % ("with" if byname else "without")
+                break
+            if w is not None and len(live) == 1:
+                decisive.append(w)
+            elif w is not None and len(live) > 1:
+                bad = "a bead is appended %d times for one match" % len(live)
+                break
+        if bad:
+            break
+        if len(decisive) != 1:
+            bad = "selection %s name: is decided by %d wildcmp tests" % ("with" if byname else "without", len(decisive))
+            break
+        w = decisive[0]
+        pick = lambda cs: decide(conds[cs], None, {"BYNAME": byname}, orc, conds) if cs in conds else None
+        pat = resolve_ite(w.args[0], pick) if hasattr(w.args[0], "args") else w.args[0]
+        pat_s = re.sub(r'size\(ctor\("name:", std::allocator<char>\(\)@\d+\)\)', "5", str(pat))
+        what = str(w.args[1])
+        want_pat = ("substr(%s, 5, std::basic_string<char>::npos)" % sel) if byname else sel
+        want_what = "getName(" if byname else "getType("
+        if pat_s != want_pat or not what.startswith(want_what) or "@L" not in what:
+            bad = "for a selection %s the bead is tested with wildcmp(%s, %s); required wildcmp(%s, bead.%s)" % (
+                "'name:<pattern>'" if byname else "without prefix", pat_s[:60], what[:40], "the text after 'name:'" if byname else "the whole selection", "getName()" if byname else "getType()")
+            break
+    rep.check(bad is None, "R18.5", key, "name: -> wildcmp(pattern, getName()); else wildcmp(pattern, getType())", "%s: %s" % (f.qname, bad), f.loc(), sample=True)
